@@ -10,6 +10,7 @@ import (
 )
 
 var errIntNumber = errors.New("invalid integer")
+var errIncrOverflow = errors.New("increment or decrement would overflow")
 var errFloat64Number = errors.New("invalid float64")
 
 func Int64(v []byte, err error) (int64, error) {
@@ -280,4 +281,13 @@ func dataType2CommonType(t byte) common.DataType {
 	default:
 		return common.NONE
 	}
+}
+
+// addInt64 returns n+delta, or errIncrOverflow if the sum does not fit (as Redis does for
+// INCR, INCRBY and HINCRBY) instead of wrapping around.
+func addInt64(n int64, delta int64) (int64, error) {
+	if (delta > 0 && n > math.MaxInt64-delta) || (delta < 0 && n < math.MinInt64-delta) {
+		return 0, errIncrOverflow
+	}
+	return n + delta, nil
 }
